@@ -205,6 +205,11 @@ class Search:
             m.predict_win(t)
             m.predict_draw(t)
             m.predict_rank(t)
+        # ... and the model has rated before: two games between SCRATCH ratings that carry the league's values (whatever the model,
+        # its class or a module remembers per value - a table keyed by sigma, a last-outcome memo - is filled when the history starts)
+        S = [m.rating(p.mu, p.sigma, name=f"scratch{i}") for i, p in enumerate(L)] + [m.rating(L[0].mu, L[0].sigma, name="scratch4")]
+        m.rate([[S[0]], [S[1]]], ranks=[1, 0])
+        m.rate([[S[2]], [S[3]], [S[4]]], scores=[1, 2, 1])
         for oi in hist:
             self.apply(m, L, self.ops[oi])
         return m, L
@@ -234,7 +239,10 @@ class Search:
             if ls is not None:
                 kw["limit_sigma"] = ls
             if enc == "scores":
-                kw["scores"] = [-x for x in r]
+                # positive integer scores as applications give them (2-1, 1-1, 1-2 ...): the library negates them, so the rank
+                # values it works with are -1, -2, ... - the only small ints whose CPython hashes collide (hash(-1) == hash(-2)),
+                # which a hash-keyed memo of the outcome vector turns into a stale answer for the next game
+                kw["scores"] = [max(r) + 1 - x for x in r]
             else:
                 kw["ranks"] = list(r)
             teams = [[L[i] for i in t] for t in mt]
@@ -290,6 +298,19 @@ class Search:
                     if snap_obj(obj) != snap0:
                         checks.append(("I4", f"malformed call {name} modified {label} inside its argument"))
             return ["bad", name, outcome[0], outcome[1] if outcome[0] == "rejected" else ""]
+        if kind == "foreign":
+            # ANOTHER model object of the same class with other parameters rates and predicts games between other rating objects that
+            # carry the league's current values, and is dropped: nothing the history's own model returns afterwards may depend on it
+            # (class-level tables tagged per instance, memos keyed by id(model) whose address is reused, ...)
+            b = self.cfg.beta
+            fm = self.cls(beta=b * 3.0 + 0.123, kappa=3e-3, tau=0.4 * b, limit_sigma=not self.cfg.limit_sigma)
+            F = [fm.rating(p.mu, p.sigma, name=f"f{i}") for i, p in enumerate(L)] + [fm.rating(L[0].mu, L[0].sigma)]
+            fm.rate([[F[0]], [F[1]]], ranks=[0, 1])
+            fm.rate([[F[2]], [F[3]], [F[4]]], ranks=[0, 0, 1])
+            G = [[fm.rating(p.mu, p.sigma)] for p in L[:3]]
+            fm.predict_win(G), fm.predict_draw(G), fm.predict_rank(G)
+            del fm
+            return ["foreign"]
         if kind == "mutate":
             # values changed by the application, not by rate(): mu and sigma are plain public attributes
             L[0].mu = L[0].mu + 0.5 * self.cfg.beta
@@ -447,7 +468,7 @@ def diff_state(a, b):
 def describe(op):
     if op[0] == "rate":
         _, mt, r, tau, ls, enc = op
-        s = f"rate({'v'.join('+'.join('p%d' % i for i in t) for t in mt)}, {enc}={list(r) if enc == 'ranks' else [-x for x in r]}"
+        s = f"rate({'v'.join('+'.join('p%d' % i for i in t) for t in mt)}, {enc}={list(r) if enc == 'ranks' else [max(r) + 1 - x for x in r]}"
         if tau is not None:
             s += f", tau={tau!r}"
         if ls is not None:
@@ -488,12 +509,16 @@ BAD = {
 
 # --------------------------------------------------------------------------- operation alphabets
 def _rate_ops(beta, matchups, options, enc_alternate=False):
+    """Outcomes are given as ranks; the plain call (no per-call option) of every matchup x weak order is present a second time with
+    the outcome given as positive scores.  enc_alternate: the option variants of tied outcomes use scores as well."""
     ops = []
     for mt in matchups:
         for r in spaces.weak_orders(len(mt)):
             for (tau, ls) in options:
                 enc = "scores" if (enc_alternate and len(set(r)) < len(r)) else "ranks"
                 ops.append(("rate", mt, tuple(r), tau, ls, enc))
+                if (tau, ls) == (None, None):
+                    ops.append(("rate", mt, tuple(r), tau, ls, "ranks" if enc == "scores" else "scores"))
     return ops
 
 
@@ -505,7 +530,7 @@ def ops_full(beta):
             ops.append((p, mt))
     for name in BAD:
         ops.append(("bad", name))
-    ops += [("restore", "create_rating"), ("restore", "rating"), ("deepcopy",), ("mutate",)]
+    ops += [("restore", "create_rating"), ("restore", "rating"), ("deepcopy",), ("mutate",), ("foreign",)]
     return ops
 
 
@@ -517,7 +542,23 @@ def ops_reduced(beta):
             ops.append((p, mt))
     for name in BAD:
         ops.append(("bad", name))
-    ops += [("restore", "create_rating"), ("restore", "rating"), ("deepcopy",), ("mutate",)]
+    ops += [("restore", "create_rating"), ("restore", "rating"), ("deepcopy",), ("mutate",), ("foreign",)]
+    return ops
+
+
+def ops_toggle(beta):
+    """Option toggling on ONE pair of long-lived rating objects (p1's sigma is tiny, so tau and the clamp both bite): every combination of
+    the per-call options, three outcomes, plus the operations that come between games in an application.  Small enough for depth 3 on
+    every change (depth 4 in the thorough tier): state kept on a rating object or a model between games with different options needs
+    three steps - set, disturb, read (e.g. a prior sigma remembered by a limit_sigma game, overtaken by an unclamped game, and used
+    again by a tau = 0 game that skips the refresh)."""
+    options = [(None, None), (0, None), (0.5 * beta, None), (None, True), (None, False), (0, True), (0.5 * beta, True), (0.0, False)]
+    ops = []
+    for r in ((0, 1), (1, 0), (0, 0)):
+        for (tau, ls) in options:
+            ops.append(("rate", MATCHUPS[0], r, tau, ls, "ranks"))
+    ops.append(("rate", MATCHUPS[0], (1, 0), None, None, "scores"))
+    ops += [("predict_draw", MATCHUPS[0]), ("predict_rank", MATCHUPS[4]), ("bad", "ranks-short"), ("restore", "rating"), ("deepcopy",), ("mutate",), ("foreign",)]
     return ops
 
 
@@ -537,11 +578,11 @@ def ops_seed(beta):
     for mt in MATCHUPS:
         for p in ("predict_win", "predict_draw", "predict_rank"):
             ops.append((p, mt))
-    ops += [("restore", "create_rating"), ("deepcopy",), ("mutate",)]
+    ops += [("restore", "create_rating"), ("deepcopy",), ("mutate",), ("foreign",)]
     return ops
 
 
-OPS = {"full": ops_full, "reduced": ops_reduced, "small": ops_small, "seed": ops_seed}
+OPS = {"full": ops_full, "reduced": ops_reduced, "small": ops_small, "seed": ops_seed, "toggle": ops_toggle}
 
 
 # --------------------------------------------------------------------------- level-synchronous parallel BFS
@@ -591,7 +632,9 @@ def explore(searches, depth, ctx, chunk=8, invs=None):
         s = _search(key)
         m, L = s.build(())
         st = s.state(m, L)
-        init[key] = st[0]
+        # I1 compares with a model that has never been called (not with the warm state: a model attribute created by the first
+        # prediction or the first rate would otherwise be part of the reference and never be reported)
+        init[key] = snap_model(s.fresh()[0])
         d0 = hashlib.blake2b(repr(st).encode(), digest_size=16).digest()
         seen[key] = {d0: ()}
         frontier[key] = [()]
@@ -664,8 +707,7 @@ def replay(case):
     (restricted to case['inv'] when given)."""
     key = tuple(case["search"])
     s = _search(key)
-    m, L = s.build(())
-    init = s.state(m, L)[0]
+    init = snap_model(s.fresh()[0])
     _, obs, viol, _ = s.step(tuple(case["hist"]), case["op"], init)
     want = case.get("inv")
     return [f"{inv}: {msg}" for inv, msg in viol if want is None or inv == want]
